@@ -9,7 +9,7 @@ From Coq Require Import ZArith NArith List String Bool.
 From Wencry Require Import Bytes AesModel ModesModel HashModel FileModel FileProps PipeConc PipeProps MiniC MiniCRun MiniCLemmas MiniCConc SrcRun SrcRun2 SrcRun5.
 From Wencry Require Import RefineConcDone RefineE2EfPipe.
 From Wencry Require Import RefineE2EfLay RefineE2EfMach RefineE2EfMem RefineE2EfRel RefineE2EfGen RefineE2EfRun
-     RefineE2EfWLay RefineE2EfWOk RefineE2EfEnc RefineE2EfDec RefineE2EfTail RefineE2EfDec2 RefineE2EfHashSpec RefineE2EfEnc2 RefineE2EfFinal RefineE2EfSetup1 RefineE2EfFinal2 RefineE2EfFinal3.
+     RefineE2EfWLay RefineE2EfWOk RefineE2EfEnc RefineE2EfDec RefineE2EfTail RefineE2EfDec2 RefineE2EfHashSpec RefineE2EfEnc2 RefineE2EfFinal RefineE2EfSetup1 RefineE2EfFinal2 RefineE2EfFinal3 RefineE2EfFinal4.
 Import ListNotations.
 
 (* ---------------- (i) any layout, any stream object ---------------- *)
@@ -207,3 +207,21 @@ Theorem SRC_execute_encrypt_is_model_modulo_second_setup_step :
   end.
 Proof. exact RefineE2EfFinal3.encrypt_modulo_second_step. Qed.
 Print Assumptions SRC_execute_encrypt_is_model_modulo_second_setup_step.
+
+(* encrypt: the machine part of the second set-up step is proved too (RefineE2EfSetup2.second_step: lock / unlock of get_instance, returns, call of
+   run_multicry, the spawn loop, run_buffer / wait_update up to its lock); left: the two SEQUENTIAL stretches as big-step premises over
+   `exec whole_prog` on explicit states (RefineE2EfSetup2Spec.gi_if_spec, pa_rest_spec), bundled in RefineE2EfFinal4.second_step_seq_spec *)
+Theorem SRC_execute_encrypt_is_model_modulo_two_sequential_stretches :
+  forall (c hbuf T : nat) (P key seed : list N) (cm hm : N),
+  enc_params c hbuf T P key seed cm hm ->
+  forallb (fun b => (0 <? b)%N && (b <? 256)%N) seed = true -> (N.of_nat (List.length seed) < 2 ^ 32)%N ->
+  (N.of_nat (16 * c) < 2 ^ 32)%N -> (N.of_nat (64 * hbuf) < 2 ^ 32)%N ->
+  forall ke, create true cm = Some ke ->
+  RefineE2EfFinal4.second_step_seq_spec c hbuf T P key seed cm hm ke ->
+  forall rnd,
+  match src_encrypt_file c hbuf T cm hm P key seed rnd with
+  | SOk (b, o, i, _) => b = true /\ enc c hbuf T P key cm hm seed = FileModel.Ok o /\ i = P
+  | SErr w => w = "out of fuel"%string \/ w = "step bound reached"%string
+  end.
+Proof. exact RefineE2EfFinal4.encrypt_modulo_second_step_seq. Qed.
+Print Assumptions SRC_execute_encrypt_is_model_modulo_two_sequential_stretches.
